@@ -1,6 +1,7 @@
 package c04
 
 import (
+	"errors"
 	"bytes"
 	"fmt"
 	"sort"
@@ -104,6 +105,8 @@ func describe(s kit.SentRTP) string {
 	return fmt.Sprintf("{ssrc %d pt %d seq %d ts %d pad %v/%d csrc %d ext %v payload %d bytes % x...}", s.Header.SSRC, s.Header.PayloadType, s.Header.SequenceNumber,
 		s.Header.Timestamp, s.Header.Padding, s.Header.PaddingSize, len(s.Header.CSRC), s.Header.Extension, len(s.Payload), s.Payload[:min(len(s.Payload), 6)])
 }
+
+var errTransportDown = errors.New("injected transport error")
 
 type boundStream struct {
 	info   *interceptor.StreamInfo
@@ -313,6 +316,17 @@ func TestResponderRetransmits(t *testing.T) {
 				for i, s := range streams {
 					befores[i] = s.sink.Len()
 				}
+				// the transport may refuse some of the retransmissions: every requested packet is still handed to it exactly once
+				for i, s := range streams {
+					if rapid.IntRange(0, 3).Draw(t, "transportFails") == 0 {
+						fa := map[int]error{}
+						for j, nf := 0, rapid.IntRange(1, 3).Draw(t, "failCount"); j < nf; j++ {
+							fa[befores[i]+rapid.IntRange(0, 6).Draw(t, "failAt")] = errTransportDown
+						}
+						s.sink.SetFailAt(fa)
+						classes["retransmission-write-fails"] = true
+					}
+				}
 				rtcpSrc.Push(raw)
 				buf := kit.DirtyBuffer(1500)
 				rn, _, rerr := rtcpReader.Read(buf, interceptor.Attributes{})
@@ -321,6 +335,9 @@ func TestResponderRetransmits(t *testing.T) {
 				}
 				if left := kit.WaitGoroutines(base, 10*time.Second); left > base {
 					t.Fatalf("retransmission goroutines still running 10 s after the NACK (goroutines %d > %d)", left, base)
+				}
+				for _, s := range streams {
+					s.sink.SetFailAt(nil)
 				}
 				// expected retransmissions per stream
 				for i, s := range streams {
